@@ -482,11 +482,10 @@ public:
         assert(ss_front_ == 0);
         assert(ss_stack_.empty());
 
-        std::uint16_t* bktcache =
-            reinterpret_cast<std::uint16_t*>(bktcache_.data());
-
         // sort first level
-        ss_stack_.emplace_back(ctx_, strptr, depth, bktcache);
+        ss_stack_.emplace_back(
+            ctx_, strptr, depth,
+            reinterpret_cast<std::uint16_t*>(bktcache_.data()));
 
         // step 5: "recursion"
 
@@ -537,9 +536,12 @@ public:
                                 << " size " << bktsize << " lcp "
                                 << int(s.splitter_lcp[i / 2] & 0x7F);
 
+                        // bktcache_ may have been reallocated by
+                        // sort_mkqs_cache(): fetch the pointer anew
                         ss_stack_.emplace_back(
                             ctx_, sp, s.depth_ + (s.splitter_lcp[i / 2] & 0x7F),
-                            bktcache);
+                            reinterpret_cast<std::uint16_t*>(
+                                bktcache_.data()));
                     }
                 }
                 // i is odd -> bkt[i] is equal bucket
@@ -581,7 +583,9 @@ public:
                             << " size " << bktsize << " lcp keydepth!";
 
                         ss_stack_.emplace_back(
-                            ctx_, sp, s.depth_ + sizeof(key_type), bktcache);
+                            ctx_, sp, s.depth_ + sizeof(key_type),
+                            reinterpret_cast<std::uint16_t*>(
+                                bktcache_.data()));
                     }
                 }
             }
